@@ -108,6 +108,10 @@ class Gen:
             mid = {"k": "var", "n": self.name()} if r.random() < 0.8 else {"k": "wild"}
             return r.choice([
                 {"k": "cmp", "ops": ["<", "<"], "items": [{"k": "lit", "v": I(lo)}, mid, {"k": "lit", "v": I(hi)}]},
+                {"k": "cmp", "ops": [r.choice(["<", "<="]), r.choice(["<", "<="])],
+                 "items": [{"k": "lit", "v": I(lo)}, mid, {"k": "lit", "v": I(hi)}]},
+                {"k": "cmp", "ops": [r.choice([">", ">="]), r.choice([">", ">="])],
+                 "items": [{"k": "lit", "v": I(hi)}, mid, {"k": "lit", "v": I(lo)}]},
                 {"k": "cmp", "ops": [r.choice(["<", "<=", ">", ">="])], "items": [mid, {"k": "lit", "v": I(hi)}]}])
         return {"k": "ann", "p": self.pattern(d - 1), "ty": r.choice(ANN_TYPES)}
 
